@@ -298,6 +298,13 @@ Proof. intros G. unfold parseUseStmt. repeat stepwith callE. Qed.
 Lemma parseReserveStmt_total st : good st -> okres st (parseReserveStmt st).
 Proof. intros G. unfold parseReserveStmt. repeat stepwith callE. Qed.
 
+Lemma parseBracesStmt_total n st :
+  good st -> (6 * mu st + 4 <= n)%nat -> okres st (parseBracesStmt n st).
+Proof.
+  intros G B. unfold parseBracesStmt.
+  pose proof parseEmbeddedCode_total as IH. repeat stepwith callE.
+Qed.
+
 Lemma parseSlotStmt_total st : good st -> okres st (parseSlotStmt st).
 Proof. intros G. unfold parseSlotStmt. repeat stepwith callE. Qed.
 
@@ -321,7 +328,7 @@ Proof.
   induction n as [|f (IHs & IHbl & IHbs & IHbody & IHei & IHsl)].
   { unfold Ps, Pbl, Pbs, Pbody, Pei, Psl. repeat split; intros; lia. }
   unfold Ps, Pbl, Pbs, Pbody, Pei, Psl in *.
-  pose proof parseExpression_total as L1. pose proof parseEmbeddedCode_total as L2.
+  pose proof parseExpression_total as L1. pose proof parseEmbeddedCode_total as L2. pose proof parseBracesStmt_total as L2b.
   pose proof parseCondDirective_total as L3. pose proof parseDumpStmt_total as L4.
   pose proof parseUseStmt_total as L5. pose proof parseReserveStmt_total as L6.
   pose proof parseSlotStmt_total as L7.
